@@ -7,10 +7,11 @@ set -u
 WT=$(readlink -f "$1"); NAME=$2; shift 2
 MH=/tmp/mh/$NAME
 mkdir -p "$MH/harness" "$MH/out"
-rsync -a --delete --exclude target /verif/harness/ "$MH/harness/"
+VROOT=${VROOT:-/verif}
+rsync -a --delete --exclude target "$VROOT/harness/" "$MH/harness/"
 sed -i "s#/repo/#$WT/#g" "$MH/harness/Cargo.toml"
 grep -rl '"/repo/' "$MH/harness/src" 2>/dev/null | xargs -r sed -i "s#\"/repo/#\"$WT/#g"
-cd /verif
+cd "$VROOT"
 for P in "$@"; do
   echo "== $P on $WT"
   VERIF_HARNESS_DIR="$MH/harness" VERIF_OUT_DIR="$MH/out" ./check "$P" --tier quick 2>&1 | cut -c1-400
